@@ -371,10 +371,19 @@ Section Ops.
 
   (* ------------------------------------------------------------------------------------------ *)
   (* one operation *)
+  (* ReadLine, ReadDelimited, ReadWordSameLine, get and peek answer exactly as the specification; the number readers
+     and SkipSpaces may answer an exhausted input with a failure / a normal return instead of end of input *)
+  Definition exact_op (o : op) : bool :=
+    match o with OLine _ _ | ODelim | OWord | OGet | OPeek => true | _ => false end.
+  Definition agree_op (o : op) (r0 r : res) : Prop := if exact_op o then r = r0 else res_agree r0 r.
+
+  Lemma agree_op_res_agree : forall o r0 r, agree_op o r0 r -> res_agree r0 r.
+  Proof. intros o r0 r H. unfold agree_op in H. destruct (exact_op o); [now left|exact H]. Qed.
+
   Definition step_ok (o : op) (s : fp) : Prop :=
     let '(r, s') := run_op v o s in
     let '(r0, rest') := spec_op o (rest s) in
-    Inv total s' /\ rest s' = rest' /\ res_agree r0 r.
+    Inv total s' /\ rest s' = rest' /\ agree_op o r0 r.
 
   Lemma res_agree_refl : forall r, res_agree r r.
   Proof. intros. now left. Qed.
@@ -384,7 +393,7 @@ Section Ops.
     intros d st s I. unfold step_ok. simpl. unfold read_line.
     pose proof (read_line_loop_spec (fuel_of s) d st 0 s I (Nat.le_0_l _) eq_refl (mu_fuel s I)) as (I' & E).
     destruct (read_line_loop v (fuel_of s) d st 0 s) as [r s']. simpl in *.
-    destruct (spec_line d st (rest s)) as [r0 rest']. inversion E; subst. split3; [exact I'|reflexivity|apply res_agree_refl].
+    destruct (spec_line d st (rest s)) as [r0 rest']. inversion E; subst. split3; [exact I'|reflexivity|reflexivity].
   Qed.
 
   Lemma skip_ok : forall s, Inv total s -> step_ok OSkip s.
@@ -407,9 +416,9 @@ Section Ops.
       pose proof (consume_to_delim_spec is_space s1 I1) as (I2 & C).
       destruct (consume_to_delim v is_space s1) as [r s2]. simpl in *.
       destruct (rest s1) eqn:Er.
-      + destruct C as (C1 & C2). subst r. split3; [exact I2|exact C2|apply res_agree_refl].
-      + destruct C as (C1 & C2). subst r. split3; [exact I2|exact C2|apply res_agree_refl].
-    - destruct H as (I1 & R1 & R2). rewrite R2. split3; [exact I1|exact R1|apply res_agree_refl].
+      + destruct C as (C1 & C2). subst r. split3; [exact I2|exact C2|reflexivity].
+      + destruct C as (C1 & C2). subst r. split3; [exact I2|exact C2|reflexivity].
+    - destruct H as (I1 & R1 & R2). rewrite R2. split3; [exact I1|exact R1|reflexivity].
   Qed.
 
   Lemma word_ok : forall s, Inv total s -> step_ok OWord s.
@@ -421,10 +430,10 @@ Section Ops.
     - destruct H as (I1 & R1 & b & t & Rb & Db). rewrite <- R1, Rb, Db. rewrite <- Rb.
       pose proof (consume_to_delim_spec is_space s1 I1) as (I2 & C).
       destruct (consume_to_delim v is_space s1) as [r s2]. simpl in *. rewrite Rb in C. rewrite <- Rb in C.
-      destruct C as (C1 & C2). subst r. split3; [exact I2|exact C2|apply res_agree_refl].
+      destruct C as (C1 & C2). subst r. split3; [exact I2|exact C2|reflexivity].
     - destruct H as (I1 & R1 & [Hn|(b & t & Rb & Db)]); rewrite <- R1.
-      + rewrite Hn. split3; [exact I1|reflexivity|apply res_agree_refl].
-      + rewrite Rb, Db. split3; [exact I1|reflexivity|apply res_agree_refl].
+      + rewrite Hn. split3; [exact I1|reflexivity|reflexivity].
+      + rewrite Rb, Db. split3; [exact I1|reflexivity|reflexivity].
   Qed.
 
   Lemma number_ok : forall k s, Inv total s ->
@@ -477,16 +486,16 @@ Section Ops.
   Proof.
     intros s I. unfold step_ok. simpl. pose proof (peek_spec s I) as (I' & R & H).
     destruct (peek v s) as [r s']. simpl in *. unfold spec_peek. destruct (rest s) eqn:Er.
-    - subst r. split3; [exact I'|exact R|apply res_agree_refl].
-    - destruct H as (H & _). subst r. split3; [exact I'|exact R|apply res_agree_refl].
+    - subst r. split3; [exact I'|exact R|reflexivity].
+    - destruct H as (H & _). subst r. split3; [exact I'|exact R|reflexivity].
   Qed.
 
   Lemma get_ok : forall s, Inv total s -> step_ok OGet s.
   Proof.
     intros s I. unfold step_ok. simpl. unfold get. pose proof (peek_spec s I) as (I' & R & H).
     destruct (peek v s) as [r s']. simpl in *. unfold spec_get. destruct (rest s) eqn:Er.
-    - subst r. split3; [exact I'|exact R|apply res_agree_refl].
-    - destruct H as (H & L). subst r. split3; [now apply advance_inv|rewrite rest_advance by exact L; now rewrite R|apply res_agree_refl].
+    - subst r. split3; [exact I'|exact R|reflexivity].
+    - destruct H as (H & L). subst r. split3; [now apply advance_inv|rewrite rest_advance by exact L; now rewrite R|reflexivity].
   Qed.
 
   Theorem op_refines : forall o s, Inv total s -> step_ok o s.
@@ -511,7 +520,17 @@ Section Ops.
     pose proof (op_refines o s I) as H. unfold step_ok in H.
     destruct (run_op v o s) as [r s']. destruct (spec_op o (rest s)) as [r0 rest'].
     destruct H as (I' & R & A). constructor.
-    - split; [exact A|]. simpl. pose proof (inv_off _ _ I') as O. rewrite R in O. lia.
+    - split; [exact (agree_op_res_agree _ _ _ A)|]. simpl. pose proof (inv_off _ _ I') as O. rewrite R in O. lia.
     - rewrite <- R. now apply IH.
+  Qed.
+  (* sequences of exact operations: the results are equal, not merely in agreement *)
+  Theorem run_refines_exact : forall ops s, Inv total s -> forallb exact_op ops = true ->
+    map fst (run v ops s) = map fst (spec_run total ops (rest s)).
+  Proof.
+    induction ops as [|o ops IH]; intros s I E; simpl; [reflexivity|]. simpl in E. apply andb_true_iff in E as [E1 E2].
+    pose proof (op_refines o s I) as H. unfold step_ok in H.
+    destruct (run_op v o s) as [r s']. destruct (spec_op o (rest s)) as [r0 rest'].
+    destruct H as (I' & R & A). unfold agree_op in A. rewrite E1 in A. simpl. f_equal; [exact A|].
+    rewrite <- R. now apply IH.
   Qed.
 End Ops.
